@@ -68,6 +68,10 @@ def main():
     signal.signal(signal.SIGTERM, _term)
     signal.signal(signal.SIGINT, _term)
     mode = sys.argv[1] if len(sys.argv) > 1 else "run"
+    global SEEDED
+    for a in sys.argv[2:]:
+        if a.startswith("--dir="):
+            SEEDED = os.path.join(ROOT, a[6:])
     args = [a for a in sys.argv[2:] if not a.startswith("--")]
     allchecks = "--all" in sys.argv
     names = sorted(n for n in os.listdir(SEEDED) if os.path.isdir(os.path.join(SEEDED, n)) and (not args or n in args or n.split("-")[0] in args))
@@ -79,6 +83,8 @@ def main():
         d = os.path.join(SEEDED, name)
         patch = os.path.join(d, "patch.diff")
         prop = name.split("-")[0]
+        if not re.match(r"C\d\d$", prop):
+            prop = "C01"  # behaviour-preserving changes: no property is expected to fire; --all runs every check
         row = {"property": prop}
         try:
             if mode == "confirm":
